@@ -27,15 +27,16 @@ package tlog
 //@   requires entry != nil && entry.Frame != nil && frame.SpecSigFieldOK(entry.Frame)
 //@   requires frame.SpecFrameMessage(entry.Frame) != nil && frame.SpecIsRaw(frame.SpecFrameMessage(entry.Frame)) ==>
 //@              frame.SpecRawPayloadLen(entry.Frame) <= 255
-//@   ensures  [no-partial-entry] refused ==> err != nil && logLen() == 2 && !logIsTo(0, w.ByteWriter) && !logIsTo(1, w.ByteWriter)
-//@   ensures  [file-written-at-most-once-and-last] logLen() <= 4 && !logIsTo(0, w.ByteWriter) && !logIsTo(1, w.ByteWriter) &&
-//@              (logLen() >= 3 ==> !logIsTo(2, w.ByteWriter)) && (logLen() == 4 ==> logIsTo(3, w.ByteWriter) && logCallee(3, "io.Writer.Write"))
-//@   ensures  [whole-entry-in-one-write] logLen() == 4 ==> logN(3) == 8 + frame.SpecFrameLen(fr) &&
-//@              (forall k int :: 0 <= k && k < 8 ==> logByte(3, k) == specBE64Byte(unixMicro(entry.Time), k)) &&
-//@              (forall j int :: 0 <= j && j < frame.SpecFrameLen(fr) ==> logByte(3, 8+j) == frame.SpecFrameWire(fr, j))
-//@   ensures  [errors-reported] logLen() < 4 ==> err != nil
-//@   ensures  [transport-error-reported] logLen() == 4 ==> err == logErr(3)
-//@   ensures  [success] err == nil ==> logLen() == 4
+//@   let LAST = logLen()-1
+//@   let FILE = logCountTo(w.ByteWriter)
+//@   ensures  [no-partial-entry] refused ==> err != nil && FILE == 0
+//@   ensures  [file-written-at-most-once-and-last] FILE <= 1 && (FILE == 1 ==> logLen() >= 1 && logIsTo(LAST, w.ByteWriter) && logCallee(LAST, "io.Writer.Write"))
+//@   ensures  [whole-entry-in-one-write] FILE == 1 ==> logN(LAST) == 8 + frame.SpecFrameLen(fr) &&
+//@              (forall k int :: 0 <= k && k < 8 ==> logByte(LAST, k) == specBE64Byte(unixMicro(entry.Time), k)) &&
+//@              (forall j int :: 0 <= j && j < frame.SpecFrameLen(fr) ==> logByte(LAST, 8+j) == frame.SpecFrameWire(fr, j))
+//@   ensures  [errors-reported] FILE == 0 ==> err != nil
+//@   ensures  [transport-error-reported] FILE == 1 ==> err == logErr(LAST)
+//@   ensures  [success] err == nil ==> FILE == 1
 //@   modifies frame.SpecWriterBuf(w.frameWriter)[:], ghost:log,
 //@            *frame.SpecMessageField(entry.Frame) when old(frame.SpecFrameMessage(entry.Frame)) != nil && !old(frame.SpecIsRaw(frame.SpecFrameMessage(entry.Frame))),
 //@            *frame.SpecChecksumField(entry.Frame) when old(frame.SpecFrameMessage(entry.Frame)) != nil && !old(frame.SpecIsRaw(frame.SpecFrameMessage(entry.Frame)))
